@@ -42,7 +42,7 @@ func mustTime(s string) time.Time {
 func zeroFirstTable(n int, seed int64) *vtable {
 	t := &vtable{name: fmt.Sprintf("zero-first-%d", n), vals: map[int][]any{}}
 	if n == 0 {
-		t.vals[jsonapi.AttrTypeString] = []any{"", "a", "\x00<&>\"\\é漢\U0001F600", "b "}
+		t.vals[jsonapi.AttrTypeString] = []any{"", "a\\u0026b\\u003c\\u003e", "\x00<&>\"\\é漢\U0001F600", "b "} // rank 1: a literal backslash before u0026: the text of a JSON escape
 		t.vals[jsonapi.AttrTypeInt] = []any{int(0), int(-1), int(math.MaxInt64), int(math.MinInt64)}
 		t.vals[jsonapi.AttrTypeInt8] = []any{int8(0), int8(math.MinInt8), int8(math.MaxInt8), int8(1)}
 		t.vals[jsonapi.AttrTypeInt16] = []any{int16(0), int16(math.MinInt16), int16(math.MaxInt16), int16(-1)}
